@@ -30,9 +30,13 @@ TWO_PI = ('bin', '*', C(2), ('ref', 'numpy.pi'))
 def run(ctx):
     ctx.trust('np.gradient / np.cumsum along axis 0 are the discrete derivative / integral; np.angle is scale-free')
     rule_wrap_and_freq(ctx)
-    rule_conversions(ctx, 'C09.R2')
-    rule_degrees(ctx, 'C09.R3')
-    rule_methods(ctx, 'C09.R4')
+    ctx.rule(rule_conversions, 'C09.R2')
+    ctx.rule(rule_degrees, 'C09.R3')
+    ctx.rule(rule_methods, 'C09.R4')
+    # the nht / quad amplitude is an envelope through the extrema: it exists whenever there are two or more extrema
+    # (the None-chain of the extrema routine, shared with C01.R4)
+    from . import siftcore
+    ctx.rule(siftcore.rule_none_chain, 'C09.R5', ctx.P.func('emd.sift.get_next_imf'))
     l1.rule_lib_attrs(ctx, 'L1', [FT, 'emd.spectra.phase_from_freq'], 'frequency transform')
 
 
